@@ -108,6 +108,48 @@ def sensitivity(kind):
             if False not in outs:
                 raise ObFail("%s: equals returns True on every path -- that component is not compared" % what)
             return k
+        def isometric(data, how):
+            """A norm-preserving but different rearrangement of the numbers: the comparison must look at the difference of the
+            two objects, not at the difference of some summary (their norms, sums, ...)."""
+            flat = data
+            if how == "negated":
+                return [-x for x in flat]
+            return [flat[1], flat[0]] + list(flat[2:])
+        if kind == "pose":
+            for c in POSES:
+                for how in ("negated", "swapped"):
+                    def build(i2, c=c, how=how):
+                        a = sym_pose(c, "a", unit=False)
+                        return a, Pose(c, isometric(list(a.data), how))
+                    n += must_see(build, "%s vs the same numbers %s (same norm, different pose)" % (c, how))
+        elif kind == "vertex":
+            for c in POSES:
+                def build(i2, c=c):
+                    a = sym_pose(c, "a", unit=False)
+                    return mk_vertex(i2, ida, a), mk_vertex(i2, ida, Pose(c, isometric(list(a.data), "swapped")))
+                n += must_see(build, "Vertex[%s] vs a vertex whose pose has two components swapped (same norm)" % c)
+        else:
+            for label, mk in (("EdgeOdometry[PoseSE2]", lambda i2: mk_odometry(i2, "PoseSE2", [ida, idb], "o")),
+                              ("EdgeOdometry[PoseSE3]", lambda i2: mk_odometry(i2, "PoseSE3", [ida, idb], "o")),
+                              ("EdgeLandmark[PoseSE2]", lambda i2: mk_landmark(i2, "PoseSE2", [ida, idb], "l", oid=Poly.var("id_o"))),
+                              ("EdgeLandmark[PoseSE3]", lambda i2: mk_landmark(i2, "PoseSE3", [ida, idb], "l", oid=Poly.var("id_o")))):
+                for fname in ("estimate", "offset", "information"):
+                    if fname not in mk(it).fields:
+                        continue
+                    for how in ("negated", "swapped"):
+                        def build(i2, mk=mk, fname=fname, how=how):
+                            a = mk(i2)
+                            b = clone_edge(a)
+                            f = b.fields[fname]
+                            if fname == "information":
+                                if how == "negated":
+                                    f.data[:] = [[-x for x in r] for r in f.data]
+                                else:
+                                    f.data[0], f.data[1] = f.data[1], f.data[0]     # rows swapped: same Frobenius norm
+                            else:
+                                f.data[:] = isometric(list(f.data), how)
+                            return a, b
+                        n += must_see(build, "%s vs a copy whose %s is %s (same norm, different numbers)" % (label, fname, how))
         if kind == "pose":
             for c in POSES:
                 L = len(sym_pose(c, "a").data)
@@ -157,6 +199,62 @@ def sensitivity(kind):
                             return a, b
                         n += must_see(build, "%s vs a copy whose information[%d,%d] was replaced" % (label, r, c2))
         return dict(explored=n, kind=kind)
+    return lambda pkg: run_obligation(pkg, fn)
+
+
+def tolerance_cases():
+    """Q5: the caller's tolerance governs every numeric comparison below the entry point: with a symbolic `tol`, every inequality
+    the comparison decides on symbolic numbers mentions `tol` (an inequality against a built-in constant means a nested equals
+    was called without the tolerance, or a hard-wired threshold is used).  Sign tests without a constant term (abs / max of
+    data) are computations, not thresholds, and are ignored."""
+    import re as _re
+
+    def fn(it):
+        T = Poly.var("tol")
+        ida, idb = Poly.var("ida"), Poly.var("idb")
+        n = 0
+
+        def graph(i, tag, kind):
+            vs = [mk_vertex(i, [ida, idb][k], sym_pose("PoseSE2", "p%s%d" % (tag, k))) for k in range(2)]
+            if kind == "lm":
+                vs[1] = mk_vertex(i, idb, sym_pose("PoseR2", "pl" + tag))
+                es = [mk_landmark(i, "PoseSE2", [ida, idb], "e" + tag)]
+            else:
+                es = [mk_odometry(i, "PoseSE2", [ida, idb], "e" + tag)]
+            return i.construct("Graph", [es, vs])
+        cases = [("%s" % c, (lambda i, c=c: (sym_pose(c, "a"), sym_pose(c, "b")))) for c in POSES]
+        cases += [("Vertex[%s]" % c, (lambda i, c=c: (mk_vertex(i, ida, sym_pose(c, "a")), mk_vertex(i, ida, sym_pose(c, "b"))))) for c in POSES]
+        cases += [("EdgeOdometry[%s]" % c, (lambda i, c=c: (mk_odometry(i, c, [ida, idb], "a"), mk_odometry(i, c, [ida, idb], "b")))) for c in ("PoseSE2", "PoseSE3")]
+        cases += [("EdgeLandmark[%s]" % c, (lambda i, c=c: (mk_landmark(i, c, [ida, idb], "a", oid=Poly.var("oid")), mk_landmark(i, c, [ida, idb], "b", oid=Poly.var("oid")))))
+                  for c in ("PoseSE2", "PoseSE3")]
+        cases += [("CustomEdge[array estimate]", lambda i: (mk_custom(i, [ida, idb], "a", sym_vec("esta", 2)), mk_custom(i, [ida, idb], "b", sym_vec("estb", 2)))),
+                  ("CustomEdge[float estimate]", lambda i: (mk_custom(i, [ida, idb], "a", Poly.var("esta")), mk_custom(i, [ida, idb], "b", Poly.var("estb")))),
+                  ("Graph[odometry]", lambda i: (graph(i, "a", "odo"), graph(i, "b", "odo"))),
+                  ("Graph[landmark]", lambda i: (graph(i, "a", "lm"), graph(i, "b", "lm")))]
+        for label, build in cases:
+            def run(i, build=build):
+                a, b = build(i)
+                return i.call_method(a, "equals", [b, T])
+            paths = explore(it.pkg, run, hook=distinct_names_hook, max_paths=1024)
+            n += len(paths)
+            n_ineq = 0
+            for p in paths:
+                if p.raised is not None:
+                    raise ObFail("%s: equals(other, tol) raises %s" % (label, p.raised))
+                for cnd in p.conds:
+                    m = _re.search(r" (>=|<=|>|<) 0 is (True|False)$", cnd)
+                    if not m:
+                        continue           # exact (in)equality tests and structural tests do not involve a tolerance
+                    n_ineq += 1
+                    lhs = cnd[:m.start()]
+                    has_const = any(_re.fullmatch(r"-?\d+(/\d+)?", t.strip(" ()")) for t in _re.split(r" \+ |\)/\(", lhs))
+                    if not _re.search(r"\btol\b", cnd) and has_const:
+                        # (homogeneous sign tests such as those inside abs()/max() of data are computations, not thresholds)
+                        raise ObFail("%s: equals(other, tol) decides `%s`, which does not involve the caller's tolerance "
+                                     "(a nested comparison runs with a built-in threshold)" % (label, cnd.rsplit(" is ", 1)[0]))
+            if n_ineq == 0:
+                raise ObFail("%s: equals(other, tol) never compares anything against the tolerance" % label)
+        return dict(explored=n, cases=len(cases))
     return lambda pkg: run_obligation(pkg, fn)
 
 
@@ -331,9 +429,11 @@ def run(run_, pkg, tier):
     if run_.wants("C17/custom-sizes"):
         tasks.append(("C17/custom-sizes", "C17-Q13-total-on-sizes", custom_size_cases(), "%s:%d" % (bfn._gs_module, bfn.lineno)))
     gfn = pkg.method("Graph", "equals")
+    if run_.wants("C17/tolerance"):
+        tasks.append(("C17/tolerance", "C17-Q5-tolerance-governs-every-comparison", tolerance_cases(), "%s:%d" % (gfn._gs_module, gfn.lineno)))
     if run_.wants("C17/graph"):
         tasks.append(("C17/graph", "C17-Q4-graph", graph_cases(), "%s:%d" % (gfn._gs_module, gfn.lineno)))
     n_eq = sum(1 for q, f in pkg.all_functions() if f.name == "equals")
     run_.floor("equals methods", n_eq, 5)
     record(run_, tasks, run_tasks(pkg, tasks))
-    run_.floor("C17 obligations", len(tasks) if run_.only is None else 100, 100)
+    run_.floor("C17 obligations", len(tasks) if run_.only is None else 101, 101)
